@@ -184,6 +184,22 @@ class Receive(Explorer):
                 states = nxt
             return outs_ + [("fall", None, x) for x in states]
         bare = [c for c in calls(s, into_defs=False) if call_attr(c) == "track_reliable"]
+        if bare and isinstance(s, ast.Assign) and len(s.targets) == 1 and isinstance(s.targets[0], ast.Name) \
+                and s.value is not bare[0]:
+            # the verdict enters a local through an expression (`seen = not circuit.track_reliable(..)`)
+            key = ast.Name(id=s.targets[0].id, ctx=ast.Load())
+            outs_ = []
+            for res in (True, False):
+                s2 = st.copy()
+                if not assume(bare[0], res, s2):
+                    continue
+                if not res:
+                    s2.data["dup"] = True
+                t_ = tv(s.value, s2)
+                if t_ is not None:
+                    assume(key, t_, s2)
+                outs_.append(("fall", None, s2))
+            return outs_
         if bare and not (isinstance(s, ast.Assign) and len(s.targets) == 1 and isinstance(s.targets[0], ast.Name)
                          and s.value is bare[0]):
             dup = st.copy()
